@@ -68,7 +68,11 @@ func (st *State) pickNext(kind string) {
 		if prev != nil {
 			from = prev.id
 		}
-		st.sched = append(st.sched, SchedEvent{Thread: from, To: st.cur.id, Kind: kind})
+		ev := SchedEvent{Thread: from, To: st.cur.id, Kind: kind, ToName: st.cur.label}
+		if prev != nil {
+			ev.FromName = prev.label
+		}
+		st.sched = append(st.sched, ev)
 	}
 	st.cur.sleeping = false
 	if st.cur.status == thBlocked {
@@ -221,10 +225,9 @@ func (st *State) maybePreempt(th *Thread) bool {
 	}
 	st.preemptLeft--
 	pos := st.p.Fset.Position(ins.Pos()).String()
-	th.hits[pos]++
 	th.noPreempt = true
 	to := others[k-1]
-	st.sched = append(st.sched, SchedEvent{Thread: th.id, Pos: pos, Nth: th.hits[pos], To: to.id, Kind: "preempt"})
+	st.sched = append(st.sched, SchedEvent{Thread: th.id, Pos: pos, Nth: th.ihits[ins] + 1, To: to.id, Kind: "preempt", FromName: th.label, ToName: to.label})
 	st.cur = to
 	st.runGen++
 	to.sleeping = false
